@@ -96,7 +96,10 @@ impl SdJwtVc {
     let metadata_url = {
       let origin = self.claims().iss.origin().ascii_serialization();
       let path = self.claims().iss.path();
-      format!("{origin}{WELL_KNOWN_VC_ISSUER}{path}").parse().unwrap()
+      // `iss` may be any URL; one without a tuple origin (e.g. a DID or a `data:` URL) has no well-known location.
+      format!("{origin}{WELL_KNOWN_VC_ISSUER}{path}")
+        .parse::<Url>()
+        .map_err(|e| Error::InvalidIssuerMetadata(anyhow!("issuer \"{}\" has no metadata URL: {e}", self.claims().iss)))?
     };
     match resolver.resolve(&metadata_url).await {
       Err(ResolverErr::NotFound(_)) => Ok(None),
